@@ -193,6 +193,19 @@ where
         self.finished_data_bufs.push(buf.payload);
     }
 
+    /// Verification hook (feature `verif_hooks`, off by default): number of
+    /// streams currently being reconstructed, pooled data buffers and pooled
+    /// section buffers. Read-only, used by external runtime monitors to check
+    /// that completed or evicted streams release their state.
+    #[cfg(feature = "verif_hooks")]
+    pub fn verif_counts(&self) -> (usize, usize, usize) {
+        (
+            self.active.len(),
+            self.finished_data_bufs.len(),
+            self.finished_section_bufs.len(),
+        )
+    }
+
     /// Retains only the elements specified by the predicate.
     pub fn retain<F>(&mut self, f: F)
     where
